@@ -144,4 +144,58 @@ def runOps (t : Nat) (items : List (ι × μ)) : List (Op ι μ) → List (ι ×
     let r' := runOps (t + 1) r.1 ops
     (r'.1, r.2.toList ++ r'.2)
 
+/-! ### `Collection.Delete`: optimistic read, callbacks without the lock, re-check under the lock, retry
+
+```go
+c.mu.RLock(); oldVal, exists := c.byId[id]; c.mu.RUnlock()
+for attempt := 0; attempt < 5; attempt++ {
+    if !exists { return NotFound }
+    expectedCheck(oldVal.body) …            // caller code, no lock held: may write to the collection itself
+    c.mu.Lock()
+    oldVal2, exists2 := c.byId[id]
+    if oldVal2 != oldVal || exists2 != exists { c.mu.Unlock(); oldVal, exists = oldVal2, exists2; continue }
+    delete(c.byId, id); c.bus.Send(REMOVE{OldValue: oldVal.body}); c.mu.Unlock(); return
+}
+return Unavailable
+```
+`intf` lists, attempt by attempt, the writes that land between the read and the lock (the check
+callback writing to the collection, or other writers).  `oldVal2 != oldVal` compares `*item`
+pointers; every successful write stores a fresh `*item` (or deletes it), so the pointer of id `i`
+changed iff a successful write to `i` was published in between: `touched`. -/
+
+def touched (i : ι) (evs : List (Change ι μ)) : Bool := evs.any (fun c => decide (c.id = i))
+
+/-- `deleteLoop i attemptsLeft read t items intf`: the loop of `Delete` with `read` = the value of `i`
+as last read.  Returns the final contents and every event published meanwhile, in order. -/
+def deleteLoop (i : ι) : Nat → Option μ → Nat → List (ι × μ) → List (List (Op ι μ)) →
+    List (ι × μ) × List (Change ι μ)
+  | 0, _, _, items, _ => (items, [])                       -- Unavailable: "concurrent writes"
+  | n + 1, read, t, items, intf =>
+    match read with
+    | none => (items, [])                                  -- NotFound
+    | some o =>
+      let r := runOps t items (intf.headD [])              -- callbacks / other writers, no lock held
+      if touched i r.2 then                                -- under the lock: somebody changed the item
+        let r' := deleteLoop i n (r.1.lookup i) (t + r.2.length) r.1 intf.tail
+        (r'.1, r.2 ++ r'.2)
+      else                                                 -- actually do the delete; event built HERE
+        (eraseKey i r.1, r.2 ++ [mkChange i .remove (t + r.2.length) (some o) none])
+
+/-- A write as the harness drives it: a plain write, or a `Delete` whose check callback (or a
+concurrent writer) writes to the collection between the attempts. -/
+inductive Act (ι μ : Type) where
+  | op (o : Op ι μ)
+  | deleteRetry (i : ι) (intf : List (List (Op ι μ)))
+
+def stepAct (t : Nat) (items : List (ι × μ)) : Act ι μ → List (ι × μ) × List (Change ι μ)
+  | .op o => let r := stepOp t items o; (r.1, r.2.toList)
+  | .deleteRetry i intf => deleteLoop i 5 (items.lookup i) t items intf
+
+def runActs (t : Nat) (items : List (ι × μ)) : List (Act ι μ) → List (ι × μ) × List (Change ι μ)
+  | [] => (items, [])
+  | a :: as =>
+    let r := stepAct t items a
+    let r' := runActs (t + 1 + r.2.length) r.1 as
+    (r'.1, r.2 ++ r'.2)
+
 end ScVerif.C08
